@@ -211,6 +211,27 @@ def _bare_j(text):
     return body[-1] in "+-" and len(body) > 1 and body[-2] not in "eE+-" and _floatsyntax(body[:-1])
 
 
+# Does the implementation's hex step read hex digits *without* the 0x prefix?  The documentation names the step
+# ("hex") but not its syntax, so the policy is observed on the real code at the start of every worker (probe() with
+# literals that can only be hex: `ff`, `AB`); once it is known, the documented ORDER (hex before float) decides literals
+# that are both bare hex and float syntax (`1e3`): hex when bare hex is hex, float when it is not.  None = not observed.
+BAREHEX_IS_HEX = None
+
+
+def probe(convert2num):
+    """observe the bare-hex policy of the real Convert2Num"""
+    global BAREHEX_IS_HEX
+    seen = []
+    for t, v in (("ff", 255), ("AB", 171), ("1f00", 7936)):
+        try:
+            r = convert2num(t)
+            seen.append(type(r) is int and r == v)
+        except ValueError:
+            seen.append(False)
+    BAREHEX_IS_HEX = True if all(seen) else (False if not any(seen) else None)
+    return BAREHEX_IS_HEX
+
+
 def classify_number(text):
     """decimal int -> hex int -> float -> complex -> None ; Exp"""
     u = _unsigned(text)
@@ -231,6 +252,10 @@ def classify_number(text):
         elif _bare_j(text):
             rest = Exp("ambiguous", alts=[Exp("complex", complex(text)), Exp("error")])
     if barehex:       # hex numeral without prefix: documented step, undocumented syntax
+        if rest is not None and rest.kind == "float" and BAREHEX_IS_HEX is True:
+            return Exp("hex", int(text, 16))        # both readings possible: the documented order puts hex first
+        if rest is not None and rest.kind == "float" and BAREHEX_IS_HEX is False:
+            return rest
         return Exp("ambiguous", alts=[Exp("hex", int(text, 16)), rest or Exp("error")])
     return rest
 
